@@ -157,7 +157,13 @@ class JSONPointer:
                     raise JSONPointerIndexError("index out of range") from None
                 # Handle non-standard index pointer.
                 if isinstance(key, str) and key.startswith("#") and RE_CANONICAL_INT.fullmatch(key[1:]):
-                    _index = int(key[1:])
+                    try:
+                        _index = int(key[1:])
+                    except ValueError:
+                        # More digits than `int()` accepts.
+                        raise JSONPointerIndexError(
+                            f"index out of range: {key[1:]}"
+                        ) from err
                     if _index >= len(obj) or _index < 0:
                         raise JSONPointerIndexError(
                             f"index out of range: {_index}"
